@@ -67,21 +67,23 @@ def run(ctx, col: Collector):
                     and isinstance(v.orelse, ast.Constant) and v.orelse.value is False
         want = {'PRIMARY KEY': {('truthy', f'{m}.pk'), ('not', ('truthy', comp_var or '?'))}, 'AUTOINCREMENT': {('truthy', f'{m}.autoinc')},
                 'UNIQUE': {('truthy', f'{m}.unique')}, 'NOT NULL': {('truthy', f'{m}.not_null')}}
-        found: Dict[str, Set[tuple]] = {}
-        for n in walk_no_nested(fi.node):
-            if isinstance(n, ast.If):
-                lits = set(conjuncts(term(n.test, True)))
-                for text, node in appended_constants(n.body):
-                    key = text.strip()
-                    if key.startswith('DEFAULT'):
-                        key = 'DEFAULT'
-                    found[key] = lits
         for kw, lits in want.items():
-            got = found.get(kw)
+            hits = keyword_guard(fi.node, kw)
             attr = sorted(l[1] for l in lits if l[0] == 'truthy')[0]
-            col.check(got == lits, 'C03-column', f'render_column:{kw}', f'{kw} is emitted exactly when {attr} is set',
-                      f'render_column emits `{kw}` under {sorted(map(str, got)) if got is not None else "no test (or not at all)"}; expected exactly '
-                      f'{sorted(map(str, lits))}: the keyword appears for the wrong columns or never', node=fi.node, file=fi.file)
+            cons = f'render_column:{kw}'
+            if not hits:
+                col.bad('C03-column', cons, f'render_column never emits `{kw}` (the keyword occurs in no string of the function): columns with {attr} set lose it in the DDL',
+                        node=fi.node, file=fi.file)
+            elif any(h[0] == frozenset(lits) for h in hits):
+                col.ok('C03-column', cons, f'{kw} is emitted exactly when {attr} is set', node=hits[0][1], file=fi.file)
+            else:
+                got = sorted(map(str, hits[0][0]))
+                col.bad('C03-column', cons, f'render_column emits `{kw}` under {got or "no condition"}; expected exactly {sorted(map(str, lits))}: the keyword appears for the wrong '
+                        f'columns', node=hits[0][1], file=fi.file)
+        found = {}
+        dh = keyword_guard(fi.node, 'DEFAULT')
+        if dh:
+            found['DEFAULT'] = set(dh[0][0])
         col.check(comp_ok, 'C03-column', 'render_column:composite-flag', 'the composite flag is the owning table\'s "several pk columns" predicate (False for a detached column)',
                   'render_column does not take the composite-pk flag from model.table._has_composite_pk()', node=fi.node, file=fi.file)
         d = found.get('DEFAULT')
@@ -134,25 +136,24 @@ def run(ctx, col: Collector):
         mod = f'{SQLD}.table'
         cb = idx.func(mod, 'create_body')
         m = [a.arg for a in cb.node.args.args][0]
-        gens = [n for n in ast.walk(cb.node) if isinstance(n, (ast.GeneratorExp, ast.ListComp))]
-
-        def gen_over(attr: str):
-            return [g for g in gens if norm(g.generators[0].iter) == f'{m}.{attr}']
-        cg = gen_over('columns')
-        colgen = [g for g in cg if 'render' in norm(g.elt)]
-        col.check(len(colgen) == 1 and not colgen[0].generators[0].ifs, 'C03-table', 'create_body:columns', 'every column is rendered once, in order',
-                  f'create_body renders columns with {[norm(g)[:60] for g in colgen]} (expected one unfiltered pass over {m}.columns)', node=cb.node, file=cb.file)
-        ig = [g for g in gen_over('indexes') if 'render' in norm(g.elt)]
-        okpk = len(ig) == 1 and [norm(i).replace(' ', '') for i in ig[0].generators[0].ifs] == [f'{norm(ig[0].generators[0].target)}.pk']
-        col.check(okpk, 'C03-table', 'create_body:pk-indexes', 'exactly the pk indexes are rendered inside the table',
-                  f'create_body selects indexes with `{norm(ig[0])[:70] if ig else "nothing"}`; expected `for i in {m}.indexes if i.pk`', node=cb.node, file=cb.file)
+        from .common import select_filter, collect_filters
+        fs = [f for f in collect_filters(cb.node) if f['iter'] == f'{m}.columns' and 'render' in f['elt']]
+        col.check(len(fs) == 1 and not fs[0]['conds'], 'C03-table', 'create_body:columns', 'every column is rendered once, in order',
+                  f'create_body renders columns with {[(f["elt"][:40], f["conds"]) for f in fs]} (expected one unfiltered pass over {m}.columns)', node=cb.node, file=cb.file)
+        st, f = select_filter(cb.node, f'{m}.indexes', [('truthy', 'VAR.pk')], elt_is_var=False, elt_pred=lambda f: 'render' in f['elt'])
+        (col.ok if st == 'ok' else col.bad if st == 'bad' else col.unk)(
+            'C03-table', 'create_body:pk-indexes',
+            'exactly the pk indexes are rendered inside the table' if st == 'ok' else
+            (f'create_body selects indexes under {f["conds"]}; expected `for i in {m}.indexes if i.pk`' if st == 'bad' else f'create_body does not iterate {m}.indexes in a recognised form'),
+            node=cb.node, file=cb.file)
         cc = idx.func(mod, 'create_components')
         m2 = [a.arg for a in cc.node.args.args][0]
-        gens2 = [n for n in ast.walk(cc.node) if isinstance(n, (ast.GeneratorExp, ast.ListComp)) and norm(n.generators[0].iter) == f'{m2}.indexes']
-        oknp = len(gens2) == 1 and [norm(i).replace(' ', '') for i in gens2[0].generators[0].ifs] == [f'not{norm(gens2[0].generators[0].target)}.pk']
-        col.check(oknp, 'C03-table', 'create_components:non-pk-indexes', 'exactly the other indexes become statements after the table',
-                  f'create_components selects indexes with `{norm(gens2[0])[:70] if gens2 else "nothing"}`; expected `for i in {m2}.indexes if not i.pk`: an index is '
-                  f'rendered twice or not at all', node=cc.node, file=cc.file)
+        st, f = select_filter(cc.node, f'{m2}.indexes', [('not', ('truthy', 'VAR.pk'))], elt_is_var=False, elt_pred=lambda f: 'render' in f['elt'])
+        (col.ok if st == 'ok' else col.bad if st == 'bad' else col.unk)(
+            'C03-table', 'create_components:non-pk-indexes',
+            'exactly the other indexes become statements after the table' if st == 'ok' else
+            (f'create_components selects indexes under {f["conds"]}; expected `for i in {m2}.indexes if not i.pk`: an index is rendered twice or not at all' if st == 'bad'
+             else f'create_components does not iterate {m2}.indexes in a recognised form'), node=cc.node, file=cc.file)
         # composite pk clause
         ifs = [n for n in walk_no_nested(cb.node) if isinstance(n, ast.If) and '_has_composite_pk' in norm(n.test)]
         okc = False
@@ -161,9 +162,8 @@ def run(ctx, col: Collector):
             n = ifs[0]
             top_level = n in cb.node.body
             single = norm(n.test) == f'{m}._has_composite_pk()'
-            text = ''.join(t for t, _ in appended_constants(n.body))
-            lists = [g for g in ast.walk(n) if isinstance(g, (ast.GeneratorExp, ast.ListComp)) and norm(g.generators[0].iter) == f'{m}.columns'
-                     and [norm(i).replace(' ', '') for i in g.generators[0].ifs] == [f'{norm(g.generators[0].target)}.pk']]
+            text = ' '.join(c.value for b in n.body for c in ast.walk(b) if isinstance(c, ast.Constant) and isinstance(c.value, str))
+            lists = [f for f in collect_filters(cb.node) if f['iter'] == f'{m}.columns' and f['conds'] == [f'{f["var"]}.pk']]
             okc = top_level and single and 'PRIMARY KEY' in text and bool(lists)
             why = (f'test=`{norm(n.test)}` (must be the composite predicate alone), nested={not top_level}, lists pk columns={bool(lists)}')
         col.check(okc, 'C03-table', 'create_body:composite-pk-clause', 'the table-level PRIMARY KEY clause is added exactly when the table has several pk columns',
@@ -188,16 +188,21 @@ def run(ctx, col: Collector):
                   'render_table:column-notes', 'column notes are appended', 'render_table does not call render_column_notes(model)', node=rt.node, file=rt.file)
         rn = idx.func(mod, 'render_column_notes')
         m4 = [a.arg for a in rn.node.args.args][0]
+        fs = [f for f in collect_filters(rn.node) if f['iter'] == f'{m4}.columns']
         loops = [n for n in walk_no_nested(rn.node) if isinstance(n, ast.For) and norm(n.iter) == f'{m4}.columns']
-        okl = False
-        if loops:
-            cv = norm(loops[0].target)
-            gi = [n for n in loops[0].body if isinstance(n, ast.If) and norm(n.test) == f'{cv}.note']
-            if gi:
-                ss = [s for s in sinks_of(rn) if s.left.rstrip().endswith('COMMENT ON COLUMN')]
-                okl = len(ss) == 1 and 'get_full_name_for_sql' in ss[0].wrappers and ss[0].source == ('param', m4)
-        col.check(okl, 'C03-table', 'render_column_notes:qualified', 'each column note is a COMMENT ON COLUMN <qualified table>."column"',
-                  'render_column_notes does not address the column through get_full_name_for_sql(model) for every column that has a note', node=rn.node, file=rn.file)
+        noted = any(f['conds'] == [f'{f["var"]}.note'] for f in fs) or any(isinstance(x, ast.If) and norm(x.test) == f'{norm(l.target)}.note' for l in loops for x in l.body)
+        has_kw = any('COMMENT ON COLUMN' in c.value for c in ast.walk(rn.node) if isinstance(c, ast.Constant) and isinstance(c.value, str))
+        qualified = any(isinstance(c, ast.Call) and norm(c.func) == 'get_full_name_for_sql' and c.args and norm(c.args[0]) == m4 for c in ast.walk(rn.node))
+        direct = [s_ for s_ in sinks_of(rn) if s_.source == ('attr', f'{m4}.name')]
+        if not has_kw:
+            col.bad('C03-table', 'render_column_notes:qualified', 'render_column_notes emits no COMMENT ON COLUMN statement', node=rn.node, file=rn.file)
+        elif direct or not qualified:
+            col.bad('C03-table', 'render_column_notes:qualified', 'render_column_notes does not address the column through get_full_name_for_sql(model): a table outside the default '
+                    'schema is addressed by its bare name', node=rn.node, file=rn.file)
+        elif not noted:
+            col.unk('C03-table', 'render_column_notes:qualified', 'cannot see that every column with a note gets a statement', node=rn.node, file=rn.file)
+        else:
+            col.ok('C03-table', 'render_column_notes:qualified', 'each column note is a COMMENT ON COLUMN <qualified table>."column"', node=rn.node, file=rn.file)
     guarded(col, 'C03-table', 'table', table)
 
     # ---------------------------------------------------------------- C03-index
@@ -205,22 +210,23 @@ def run(ctx, col: Collector):
         mod = f'{SQLD}.index'
         cc = idx.func(mod, 'create_components')
         m = [a.arg for a in cc.node.args.args][0]
-        found: Dict[str, Set[tuple]] = {}
-        unconditional: List[str] = []
-        for st in cc.node.body:
-            if isinstance(st, ast.If):
-                lits = set(conjuncts(term(st.test, True)))
-                for text, node in appended_constants(st.body):
-                    found[text.strip().split(' ')[0] if text.strip() else ''] = lits
-            else:
-                for text, node in appended_constants([st]):
-                    unconditional.append(text.strip())
         want = {'UNIQUE': {('truthy', f'{m}.unique')}, 'ON': {('truthy', f'{m}.table')}, 'USING': {('truthy', f'{m}.type')}}
         for kw, lits in want.items():
-            col.check(found.get(kw) == lits, 'C03-index', f'create_components:{kw}', f'{kw} is emitted exactly under {sorted(map(str, lits))}',
-                      f'index statement: `{kw}` is emitted under {sorted(map(str, found.get(kw))) if found.get(kw) is not None else "no test / never"}', node=cc.node, file=cc.file)
-        col.check('CREATE' in unconditional and 'INDEX' in unconditional, 'C03-index', 'create_components:CREATE-INDEX', 'CREATE ... INDEX is unconditional',
-                  f'unconditional parts are {unconditional}', node=cc.node, file=cc.file)
+            hits = keyword_guard(cc.node, kw)
+            cons = f'create_components:{kw}'
+            if not hits:
+                col.bad('C03-index', cons, f'the index statement never contains `{kw}`', node=cc.node, file=cc.file)
+            elif any(h[0] == frozenset(lits) for h in hits):
+                col.ok('C03-index', cons, f'{kw} is emitted exactly under {sorted(map(str, lits))}', node=hits[0][1], file=cc.file)
+            else:
+                col.bad('C03-index', cons, f'index statement: `{kw}` is emitted under {sorted(map(str, hits[0][0])) or "no condition"}; expected {sorted(map(str, lits))}',
+                        node=hits[0][1], file=cc.file)
+        for kw in ('CREATE', 'INDEX'):
+            hits = keyword_guard(cc.node, kw)
+            sets = [h[0] for h in hits]
+            uncond = any(not g for g in sets) or any(len(g) == 1 and frozenset({_neg(next(iter(g)))}) in sets for g in sets)
+            col.check(uncond, 'C03-index', f'create_components:{kw}', f'{kw} is unconditional',
+                      f'`{kw}` is {"missing from" if not hits else "conditional in"} the index statement', node=cc.node, file=cc.file)
         ss = sinks_of(cc)
         nm = [s for s in ss if s.source == ('attr', f'{m}.name')]
         col.check(len(nm) == 1 and nm[0].quote == '"' and (f'{m}.name', True) in nm[0].guards, 'C03-index', 'create_components:name', 'the index name is written quoted when set',
@@ -297,15 +303,13 @@ def run(ctx, col: Collector):
                   'render_enum does not render every item of model.items in order', node=re_.node, file=re_.file)
         rd = idx.func(f'{SQLD}.renderer', 'DefaultSQLRenderer.render_db')
         dbp = [a.arg for a in rd.node.args.args][1]
-        tup = [n for n in ast.walk(rd.node) if isinstance(n, ast.Tuple) and any(isinstance(e, ast.Starred) for e in n.elts)]
-        okd = False
-        got = ''
-        if tup:
-            parts = [norm(e.value) if isinstance(e, ast.Starred) else norm(e) for e in tup[0].elts]
-            got = str(parts)
-            okd = len(parts) == 3 and parts[0] == f'{dbp}.enums' and parts[1] != f'{dbp}.tables' and parts.count(parts[1]) == 1
-        col.check(okd, 'C03-db', 'render_db:collections', 'enums, then the ordered tables, then the non-inline references - each collection once',
-                  f'render_db renders {got}; expected (*db.enums, *<ordered tables>, *<non-inline refs>)', node=rd.node, file=rd.file)
+        reads_enums = sum(1 for x in ast.walk(rd.node) if isinstance(x, ast.Attribute) and norm(x) == f'{dbp}.enums')
+        reads_tables = sum(1 for x in ast.walk(rd.node) if isinstance(x, ast.Attribute) and norm(x) == f'{dbp}.tables')
+        reads_refs = sum(1 for x in ast.walk(rd.node) if isinstance(x, ast.Attribute) and norm(x) == f'{dbp}.refs')
+        col.check(reads_enums == 1, 'C03-db', 'render_db:enums-once', 'the enums are rendered once', f'render_db reads {dbp}.enums {reads_enums} times', node=rd.node, file=rd.file)
+        col.check(reads_tables == 1, 'C03-db', 'render_db:tables-once', 'the tables are taken once (through the ordering helper)',
+                  f'render_db reads {dbp}.tables {reads_tables} times: tables are rendered twice or never', node=rd.node, file=rd.file)
+        col.check(reads_refs >= 1, 'C03-db', 'render_db:refs', 'the references are rendered', f'render_db never reads {dbp}.refs', node=rd.node, file=rd.file)
         col.check(any(isinstance(c, ast.Call) and isinstance(c.func, ast.Attribute) and c.func.attr == 'render' and norm(c.func.value) == 'cls' for c in ast.walk(rd.node)),
                   'C03-db', 'render_db:renders-each', 'every element is rendered through the renderer', 'render_db does not call cls.render on the elements', node=rd.node, file=rd.file)
     guarded(col, 'C03-enum', 'enum-and-db', enum_db)
@@ -323,3 +327,36 @@ def derives_from(fn: ast.AST, e: ast.AST, path: str, depth: int = 0) -> bool:
             if asg and all(derives_from(fn, a.value, path, depth + 1) for a in asg):
                 return True
     return False
+
+
+def guarded_constants(fn: ast.AST) -> List[Tuple[str, frozenset, ast.AST]]:
+    """Every string constant in fn (f-string pieces included) with the condition literals that enclose it
+    (If statements and conditional expressions, with polarity)."""
+    from ..strctx import enclosing_tests
+    out = []
+    for n in walk_no_nested(fn):
+        if isinstance(n, ast.Constant) and isinstance(n.value, str) and n.value.strip():
+            lits = set()
+            for t, pol in enclosing_tests(fn, n):
+                try:
+                    tt = term(ast.parse(t, mode='eval').body, pol)
+                except SyntaxError:
+                    continue
+                lits |= set(conjuncts(tt))
+            out.append((n.value, frozenset(lits), n))
+    return out
+
+
+def keyword_guard(fn: ast.AST, keyword: str):
+    """(found, set of guard-literal sets under which a constant containing the keyword as a word sequence occurs)."""
+    hits = []
+    for text, lits, node in guarded_constants(fn):
+        words = ' ' + ' '.join(text.split()) + ' '
+        if f' {keyword} ' in words.replace('(', ' ( '):
+            hits.append((lits, node))
+    return hits
+
+
+def _neg(t):
+    from ..cond import neg
+    return neg(t)
